@@ -557,3 +557,76 @@ pub async fn verif_announce(advertised: &[u64], remotable: &[bool], event: &str)
     server.stop(None);
     out
 }
+
+
+/// The session's reaction to the exit / failure of one of its children: child = "tcp" | "proxy" (the proxy of pid 77) | "stranger"; event = "ActorTerminated" | "ActorFailed".
+/// Returns "session_stopped=<0|1>;table=<pid:old|new,..>;old77_running=<0|1>"
+pub async fn verif_child_exit(child: &str, event: &str) -> String {
+    let log = Arc::new(Mutex::new(Vec::new()));
+    let (server, _sh) = Actor::spawn(None, VerifNodeServer { reply: "NoOtherConnection".to_string(), log: log.clone() }, ()).await.unwrap();
+    let frames = Arc::new(Mutex::new(Vec::new()));
+    let (session_actor, _h) = Actor::spawn(None, VerifSessionActor { frames: frames.clone() }, ()).await.unwrap();
+    let sent = Arc::new(AtomicU32::new(0));
+    let (tcp, _th) = Actor::spawn(None, VerifTcp { sent: sent.clone(), control: None }, ()).await.unwrap();
+    let (stranger, _xh) = Actor::spawn(None, VerifTcp { sent: sent.clone(), control: None }, ()).await.unwrap();
+    let session = NodeSession {
+        cookie: "cookie".to_string(),
+        is_server: true,
+        node_id: 1,
+        this_node_name: auth_protocol::NameMessage { name: "verif-myself".to_string(), flags: Some(auth_protocol::NodeFlags { version: 1 }), connection_string: "verif-myself:1".to_string(), connection_id: 0 },
+        node_server: server.get_cell().into(),
+        connection_mode: NodeConnectionMode::Isolated,
+        max_inbound_frame_size: crate::DEFAULT_MAX_INBOUND_FRAME_SIZE,
+        connection_id: 0,
+    };
+    let mut state = NodeSessionState {
+        auth: verif_auth_state("AsServer(Ok)", 0, 0, [0; 32], [0; 32]),
+        ready: ReadyState::Ready,
+        local_addr: SocketAddr::new(std::net::IpAddr::V4(std::net::Ipv4Addr::LOCALHOST), 0),
+        peer_addr: SocketAddr::new(std::net::IpAddr::V4(std::net::Ipv4Addr::LOCALHOST), 0),
+        name: None,
+        connection_id: 0,
+        remote_actors: HashMap::new(),
+        advertised_local_pids: HashSet::new(),
+        tcp: Some(tcp.clone()),
+        ping_task: None,
+        epoch: Instant::now(),
+        pong_warnings: PongWarnings::default(),
+    };
+    let myself: ActorRef<crate::node::NodeSessionMessage> = session_actor.get_cell().into();
+    let mut before = Vec::new();
+    for pid in [77u64, 78] {
+        let a = session.get_or_spawn_remote_actor(&myself, None, pid, &mut state).await.unwrap();
+        before.push((pid, a));
+    }
+    let cell = match child {
+        "tcp" => tcp.get_cell(),
+        "proxy" => before[0].1.get_cell(),
+        _ => stranger.get_cell(),
+    };
+    let ev = if event == "ActorTerminated" { SupervisionEvent::ActorTerminated(cell, None, None) } else { SupervisionEvent::ActorFailed(cell, "verif".into()) };
+    let _ = session.handle_supervisor_evt(myself.clone(), ev, &mut state).await;
+    ractor::concurrency::sleep(Duration::from_millis(40)).await;
+    let running = |a: &ActorRef<RemoteActorMessage>| matches!(a.get_status(), ractor::ActorStatus::Running | ractor::ActorStatus::Upgrading | ractor::ActorStatus::Starting);
+    // an entry is the proxy that was there before iff that proxy is still running (a replaced proxy was killed, a removed one stopped)
+    let mut table: Vec<String> = state.remote_actors.keys().map(|pid| format!("{}:{}", pid, if before.iter().any(|(p, b)| p == pid && running(b)) { "old" } else { "new" })).collect();
+    table.sort();
+    let out = format!(
+        "session_stopped={};table={};old77_running={}",
+        (!matches!(session_actor.get_status(), ractor::ActorStatus::Running | ractor::ActorStatus::Upgrading)) as u8,
+        table.join(","),
+        running(&before[0].1) as u8
+    );
+    for (_, ra) in state.remote_actors.drain() {
+        ra.stop(None);
+    }
+    for (_, a) in before {
+        a.stop(None);
+    }
+    tcp.stop(None);
+    stranger.stop(None);
+    session_actor.stop(None);
+    server.stop(None);
+    out
+}
+
